@@ -137,7 +137,8 @@ def findBin (size : Nat) : Nat :=
     | .ok v => v
     | .err _ => 0          -- `next_pow2` keeps its initial value 0
   let lz := Builtin.aws_clz_i32 (nextPow2 % 2 ^ 32)
-  MathInl.aws_sub_size_saturating ((31 + SIZE_MOD - lz) % SIZE_MOD) 5
+  -- the literals 31 and 5 are generated from the source text (findBinTop, findBinLow)
+  MathInl.aws_sub_size_saturating ((findBinTop + SIZE_MOD - lz) % SIZE_MOD) findBinLow
 
 /-! ### s_sba_alloc_from_bin -/
 
